@@ -102,6 +102,15 @@ def elem_eq(a, b):
     return z3.Or(a == b, ops.eq_term(None, a, b))
 
 
+def mutation_content(st, addr):
+    """(map, domain, size) of the immutables MapMutation at ``addr`` in state ``st`` (mutable: kept in st.aux)."""
+    for nm, srt in (("mutm", z3.ArraySort(z3.IntSort(), z3.ArraySort(V.Val, V.Val))), ("mutd", z3.ArraySort(z3.IntSort(), z3.ArraySort(V.Val, z3.BoolSort()))),
+                    ("mutn", z3.ArraySort(z3.IntSort(), z3.IntSort()))):
+        if nm not in st.aux:
+            st.aux[nm] = z3.Const(nm + "0", srt)
+    return z3.Select(st.aux["mutm"], addr), z3.Select(st.aux["mutd"], addr), z3.Select(st.aux["mutn"], addr)
+
+
 def new_seq_value(eng, st, pycls, seq_term):
     sv = eng.alloc(st, pycls)
     st.assume(V.seq_of(V.Val.a(sv.t)) == seq_term)
@@ -118,6 +127,8 @@ def new_map_value(eng, st, pycls, m, d, size):
 def seq_content(eng, v, st):
     """z3 Seq(Val) holding the items of an iterable value (tuple, list, pvector ...)."""
     C = eng.libcls
+    if type(v) in (C["PVec"], C["PList"], C["EmptyPList"], C["PDeque"]):
+        v = list(v)  # a concrete library value (e.g. the wrapped value of a module-level EMPTY constant)
     if isinstance(v, (tuple, list)):
         ts = [eng.lift(x, st) for x in v]
         if not ts:
@@ -417,7 +428,7 @@ def install(eng):
             from .engine import SymDict
 
             items = None
-            if isinstance(a0, dict) and not kw:
+            if isinstance(a0, (dict, immutables.Map)) and not kw:
                 items = list(a0.items())
             elif isinstance(a0, SymDict):
                 items = list(a0.items)
@@ -601,6 +612,202 @@ def install(eng):
         eng.method_models[(cls, "__iter__")] = Model("Map.__iter__", map_keys)
         eng.method_models[(cls, "values")] = Model("Map.values", map_values)
         eng.method_models[(cls, "items")] = Model("Map.items", map_items)
+
+    # ------------------------------------------------------------------ immutables MapMutation (mutable; content in st.aux)
+    def mut_parts(st, self):
+        return mutation_content(st, V.Val.a(self.t))
+
+    def mut_store(st, self, m, d, n):
+        a = V.Val.a(self.t)
+        st.aux["mutm"] = z3.Store(st.aux["mutm"], a, m)
+        st.aux["mutd"] = z3.Store(st.aux["mutd"], a, d)
+        st.aux["mutn"] = z3.Store(st.aux["mutn"], a, n)
+
+    @mm(IMap, "mutate")
+    def im_mutate(eng, st, args, kw):
+        # trusted: a mutation starts as a copy of its source and never writes through to it
+        m, d, n = map_parts(args[0])
+        mu = eng.alloc(st, IMut)
+        mut_parts(st, mu)
+        mut_store(st, mu, m, d, n)
+        yield st, mu
+
+    @mm(IMut, "__enter__")
+    def mu_enter(eng, st, args, kw):
+        yield st, args[0]
+
+    @mm(IMut, "__exit__")
+    def mu_exit(eng, st, args, kw):
+        yield st, None
+
+    def mu_set(eng, st, args, kw):
+        self, k, v = args
+        m, d, n = mut_parts(st, self)
+        kt, vt = knorm(eng, st, k), eng.lift(v, st)
+        eng.escape(st, kt)
+        eng.escape(st, vt)
+        mut_store(st, self, z3.Store(m, kt, vt), z3.Store(d, kt, True), n + z3.If(z3.Select(d, kt), 0, 1))
+        yield st, None
+
+    eng.method_models[(IMut, "set")] = Model("MapMutation.set", mu_set)
+    eng.method_models[(IMut, "__setitem__")] = Model("MapMutation.__setitem__", mu_set)
+
+    @mm(IMut, "__delitem__")
+    def mu_del(eng, st, args, kw):
+        self, k = args
+        m, d, n = mut_parts(st, self)
+        kt = knorm(eng, st, k)
+        for st1, present in eng.branch(z3.Select(d, kt), st):
+            if present:
+                mut_store(st1, self, m, z3.Store(d, kt, False), n - 1)
+                yield st1, None
+            else:
+                yield st1, Raise(Exc(KeyError, ()))
+
+    @mm(IMut, "get")
+    def mu_get(eng, st, args, kw):
+        self, k = args[0], args[1]
+        default = args[2] if len(args) > 2 else kw.get("default")
+        m, d, n = mut_parts(st, self)
+        kt = knorm(eng, st, k)
+        r = z3.If(z3.Select(d, kt), z3.Select(m, kt), eng.lift(default, st))
+        st.assume(eng.external_ref_fact(st, r))
+        yield st, SV(z3.simplify(r))
+
+    @mm(IMut, "__getitem__")
+    def mu_getitem(eng, st, args, kw):
+        self, k = args
+        m, d, n = mut_parts(st, self)
+        kt = knorm(eng, st, k)
+        for st1, present in eng.branch(z3.Select(d, kt), st):
+            if present:
+                r = z3.simplify(z3.Select(m, kt))
+                st1.assume(eng.external_ref_fact(st1, r))
+                yield st1, SV(r)
+            else:
+                yield st1, Raise(Exc(KeyError, ()))
+
+    @mm(IMut, "__contains__")
+    def mu_contains(eng, st, args, kw):
+        self, k = args
+        m, d, n = mut_parts(st, self)
+        yield st, SV(V.mk_bool(z3.Select(d, knorm(eng, st, k))))
+
+    @mm(IMut, "__len__")
+    def mu_len(eng, st, args, kw):
+        m, d, n = mut_parts(st, args[0])
+        st.assume(n >= 0)
+        yield st, SV(V.mk_int(n))
+
+    @mm(IMut, "finish")
+    def mu_finish(eng, st, args, kw):
+        m, d, n = mut_parts(st, args[0])
+        yield st, new_map_value(eng, st, IMap, m, d, n)
+
+    # ------------------------------------------------------------------ plist / pdeque
+    PList, EmptyPList, PDeque = C["PList"], C["EmptyPList"], C["PDeque"]
+
+    # trusted (pyrsistent): the empty plist is one singleton object of its own class; every PList instance is non-empty
+    EMPTY_PLIST = pyrsistent.plist()
+    eng._keep.append(EMPTY_PLIST)
+
+    def describe_empty_plist(e, s, obj, term):
+        if obj is EMPTY_PLIST:
+            s.assume(V.seq_of(V.Val.a(term)) == z3.Empty(V.ValSeq))
+
+    eng.const_describers.append(describe_empty_plist)
+
+    def plist_value(eng, st, sq):
+        """The PList with content sq: the singleton when sq is empty."""
+        for st1, empty in eng.branch(z3.Length(sq) == 0, st):
+            if empty:
+                yield st1, SV(eng.lift(EMPTY_PLIST, st1), hint=EmptyPList)
+            else:
+                yield st1, new_seq_value(eng, st1, PList, sq)
+
+    eng.plist_value = plist_value
+    eng.empty_plist = EMPTY_PLIST
+
+    @reg(pyrsistent.plist, "plist")
+    def m_plist(eng, st, args, kw):
+        src = args[0] if args else kw.get("iterable", ())
+        if kw.get("reverse"):
+            raise Unsupported("plist(reverse=True)")
+        yield from plist_value(eng, st, seq_content(eng, src, st))
+
+    for cls in (PList, EmptyPList):
+        @mm(cls, "cons")
+        def pl_cons(eng, st, args, kw):
+            self, x = args
+            xt = eng.lift(x, st)
+            eng.escape(st, xt)
+            yield st, new_seq_value(eng, st, PList, z3.Concat(z3.Unit(xt), V.seq_of(V.Val.a(self.t))))
+
+        def pl_first(eng, st, args, kw):
+            sq = V.seq_of(V.Val.a(args[0].t))
+            for st1, ne in eng.branch(z3.Length(sq) > 0, st):
+                if ne:
+                    r = z3.simplify(sq[0])
+                    st1.assume(eng.external_ref_fact(st1, r))
+                    yield st1, SV(r)
+                else:
+                    yield st1, Raise(Exc(AttributeError, ("Empty PList has no first",)))
+
+        def pl_rest(eng, st, args, kw):
+            sq = V.seq_of(V.Val.a(args[0].t))
+            for st1, short in eng.branch(z3.Length(sq) <= 1, st):
+                if short:
+                    yield st1, SV(eng.lift(EMPTY_PLIST, st1), hint=EmptyPList)
+                else:
+                    yield st1, new_seq_value(eng, st1, PList, z3.SubSeq(sq, 1, z3.Length(sq) - 1))
+
+        mf_, mr_ = Model("plist.first", pl_first), Model("plist.rest", pl_rest)
+        mf_.is_property = True
+        mr_.is_property = True
+        eng.method_models[(cls, "first")] = mf_
+        eng.method_models[(cls, "rest")] = mr_
+
+    @reg(pyrsistent.pdeque, "pdeque")
+    def m_pdeque(eng, st, args, kw):
+        src = args[0] if args else kw.get("iterable", ())
+        if kw.get("maxlen") is not None:
+            raise Unsupported("pdeque(maxlen=...)")
+        yield st, new_seq_value(eng, st, PDeque, seq_content(eng, src, st))
+
+    @mm(PDeque, "extend")
+    def pd_extend(eng, st, args, kw):
+        self, xs = args
+        yield st, new_seq_value(eng, st, PDeque, z3.Concat(V.seq_of(V.Val.a(self.t)), seq_content(eng, xs, st)))
+
+    def pd_left(eng, st, args, kw):
+        sq = V.seq_of(V.Val.a(args[0].t))
+        for st1, ne in eng.branch(z3.Length(sq) > 0, st):
+            if ne:
+                r = z3.simplify(sq[0])
+                st1.assume(eng.external_ref_fact(st1, r))
+                yield st1, SV(r)
+            else:
+                yield st1, Raise(Exc(IndexError, ("No elements in empty deque",)))
+
+    ml_ = Model("pdeque.left", pd_left)
+    ml_.is_property = True
+    eng.method_models[(PDeque, "left")] = ml_
+
+    @mm(PDeque, "popleft")
+    def pd_popleft(eng, st, args, kw):
+        sq = V.seq_of(V.Val.a(args[0].t))
+        rest = z3.If(z3.Length(sq) > 0, z3.SubSeq(sq, 1, z3.Length(sq) - 1), sq)
+        yield st, new_seq_value(eng, st, PDeque, rest)
+
+    import itertools as _it
+
+    if hasattr(_it, "batched"):
+        @reg(_it.batched, "itertools.batched")
+        def m_batched(eng, st, args, kw):
+            seq, n = args[0], args[1]
+            if not isinstance(seq, (tuple, list)) or not isinstance(n, int):
+                raise Unsupported("itertools.batched over a symbolic-length sequence")
+            yield st, [tuple(seq[i:i + n]) for i in range(0, len(seq), n)]
 
     map_hash = ops.opq("H_map", z3.ArraySort(V.Val, V.Val), z3.ArraySort(V.Val, z3.BoolSort()), z3.IntSort())
 
@@ -794,7 +1001,16 @@ def install_wrappers(eng):
     plid, eplid, pdid = eng.class_id(C["PList"]), eng.class_id(C["EmptyPList"]), eng.class_id(C["PDeque"])
     eng.class_id(PersistentList)
     eng.class_id(PersistentQueue)
-    eng.field_types[("PersistentList", "_inner")] = lambda v: (z3.And(V.is_ref(v), z3.Or(V.cls_of(V.Val.a(v)) == plid, V.cls_of(V.Val.a(v)) == eplid)), C["PList"])
+    empty_plist_term = eng._const_obj("obj", eng.empty_plist)
+
+    def plist_type(v):
+        # a PList instance is never empty; the empty plist is the singleton instance of its own class (trusted: pyrsistent)
+        a = V.Val.a(v)
+        nonempty = z3.And(V.cls_of(a) == plid, z3.Length(V.seq_of(a)) > 0)
+        empty = z3.And(v == empty_plist_term, V.cls_of(a) == eplid, z3.Length(V.seq_of(a)) == 0)
+        return z3.And(V.is_ref(v), z3.Or(nonempty, empty)), C["PList"]
+
+    eng.field_types[("PersistentList", "_inner")] = plist_type
     eng.field_types[("PersistentQueue", "_inner")] = lambda v: (z3.And(V.is_ref(v), V.cls_of(V.Val.a(v)) == pdid), C["PDeque"])
 
     def plist_iter(e, s, args, k):
@@ -816,6 +1032,14 @@ def install_wrappers(eng):
         elif isinstance(obj, PersistentVector) and len(obj._inner) == 0:
             ia = V.fresh_int("const_inner")
             s.assume(ia <= 0, V.cls_of(ia) == pvid, V.seq_of(ia) == z3.Empty(V.ValSeq))
+            s.assume(z3.Select(s.field_array("_inner"), V.Val.a(term)) == V.mk_ref(ia))
+            s.assume(z3.Select(s.field_array("_meta"), V.Val.a(term)) == e.lift(obj._meta, s))
+        elif isinstance(obj, PersistentList) and len(obj._inner) == 0:
+            s.assume(z3.Select(s.field_array("_inner"), V.Val.a(term)) == e.lift(e.empty_plist, s))
+            s.assume(z3.Select(s.field_array("_meta"), V.Val.a(term)) == e.lift(obj._meta, s))
+        elif isinstance(obj, PersistentQueue) and len(obj._inner) == 0:
+            ia = V.fresh_int("const_inner")
+            s.assume(ia <= 0, V.cls_of(ia) == pdid, V.seq_of(ia) == z3.Empty(V.ValSeq))
             s.assume(z3.Select(s.field_array("_inner"), V.Val.a(term)) == V.mk_ref(ia))
             s.assume(z3.Select(s.field_array("_meta"), V.Val.a(term)) == e.lift(obj._meta, s))
 
